@@ -1,13 +1,13 @@
-\* one client, root + 2 child tasks, 4 contexts, depth 3, 3 wire requests: repaired propagation, the property holds
+\* two clients in one process (NoLeak), one child task, chunked responses
 SPECIFICATION Spec
 CONSTANTS
   Tasks <- T3
-  Roots <- R1
-  MaxCtx = 4
+  Roots <- R2
+  MaxCtx = 3
   MaxWire = 3
-  MaxDepth = 3
-  MaxKids = 2
-  MaxChunks = 0
+  MaxDepth = 2
+  MaxKids = 1
+  MaxChunks = 1
   MinMaxPropagation = TRUE
 VIEW view
 INVARIANT TypeOK
